@@ -98,7 +98,9 @@ func newCollSessionCfg(order string, outgoing bool, reconnect time.Duration) *co
 	return s
 }
 
-func collPrefix(c int) wire.NLRI { return wire.NLRI{AFI: wire.AFIIPv4, Len: 16, Addr: []byte{10, byte(100 + c)}} }
+func collPrefix(c int) wire.NLRI {
+	return wire.NLRI{AFI: wire.AFIIPv4, Len: 16, Addr: []byte{10, byte(100 + c)}}
+}
 
 // observe projects the real state; ok = false if the server does not answer (a lock is held forever).
 func (s *collSession) observe(n int) (collState, bool) {
